@@ -4,7 +4,8 @@ from excel2pycl.src.exceptions import E2PyclParserException
 from excel2pycl.src.tokens import ExpressionToken, AmpersandToken, EqOperatorToken, NotEqOperatorToken, GtOperatorToken, \
     GtOrEqualOperatorToken, LtOperatorToken, LtOrEqualOperatorToken, PercentToken, OneLeftOperandExpressionToken, \
     OperandToken, OperatorToken, OneOperandArithmeticOperatorToken, PercentOperatorToken, BracketStartToken, \
-    BracketFinishToken, PlusOperatorToken, MinusOperatorToken, MultiplicationOperatorToken, DivOperatorToken
+    BracketFinishToken, PlusOperatorToken, MinusOperatorToken, MultiplicationOperatorToken, DivOperatorToken, \
+    PercentChainToken
 from excel2pycl.src.translators.abstract_translator import AbstractTranslator
 
 
@@ -48,7 +49,7 @@ class ExpressionTokenTranslator(AbstractTranslator):
                 index += 2
                 if not isinstance(values[index], BracketFinishToken):
                     raise E2PyclParserException('A bracket is not closed')
-            elif isinstance(value, (ExpressionToken, OneLeftOperandExpressionToken)):
+            elif isinstance(value, (ExpressionToken, OneLeftOperandExpressionToken, PercentChainToken)):
                 items += cls._flatten(value, excel, context)
             else:
                 raise E2PyclParserException('Unexpected token in an expression')
